@@ -22,6 +22,10 @@ CHECKS = {
          "Every row of the condition cost table (35 opcodes, unknown opcodes, all 256 two-byte cost slots × 5 high bytes, SOFTFORK arguments to 2^32-1, per-spend cost) is enumerated in both fork modes and both visitors and compared with the model's table; random bundles at parse_spends, run_block_generator2, run_block_generator and run_spendbundle (byte and INTERNED_GENERATOR pricing) must satisfy cost = byte|interned + execution + condition with execution cost recomputed by the harness with clvmr and the interned size by the harness's own de-duplication; accumulators must add up; every accepted result is re-run at max_cost = cost (identical result), at cost-1 and smaller limits (cost-exceeded) and at a larger limit (same cost). Exhaustive over the table rows, sampled elsewhere.",
          "Legacy-path execution cost is taken from the report (only the sum identity and limit behaviour are checked there).",
          "DESIGN.md section 4, C04"),
+ "C05": ("proptest; constructive oracle (the harness signs the messages its own opcode table prescribes) plus single-point tamperings at every entry point and cache state",
+         "Bundles mixing the 8 AGG_SIG opcodes over amounts of every encoding length, three sets of domain constants: the multiset of (key, final message) the rules prescribe must equal run_spendbundle's pkm_pairs and make_aggsig_final_message; the correctly signed bundle must be accepted at parse_spends (both visitors), run_block_generator2, run_block_generator and validate_clvm_and_signature with no/cold/warm BlsCache; 19 single-point tamperings (share omitted/extra, negated/identity aggregate, message or key changed on either side, parent/puzzle/amount changed incl. across the sign-byte boundary, wrong domain constant, opcodes swapped, condition omitted/duplicated/moved, other network) must each be rejected; AGG_SIG_UNSAFE messages ending in any domain constant and 7 kinds of unacceptable keys are rejected everywhere while near misses are not.",
+         "Signatures are produced with chia-bls itself (its correctness is C15/C16's subject).",
+         "DESIGN.md section 4, C05"),
  "C06": ("proptest; metamorphic relations between runs (strict ⇒ lenient with identical summary; permutation invariance incl. at the cost limit)",
          "No model: (1) for strictness sets S1 ⊆ S2 ⊆ {NO_UNKNOWN_CONDS, STRICT_ARGS_COUNT, LIMIT_SPENDS}, Ok under S2 implies Ok under S1 with an identical summary; (2) a generated permutation of spends and of conditions within spends leaves verdict, cost, every aggregate and every per-coin summary unchanged (ELIGIBLE_FOR_FF excepted), also at max_cost = cost and cost-1. Generators are biased to bundles that pass full strictness so the premises hold in ~60% of cases.",
          "Signature validation is off in these runs; created-coin lists are compared as sets.",
@@ -46,6 +50,14 @@ CHECKS = {
          "compute_merkle_set_root, MerkleSet::from_leafs().get_root() and a reference implementation written from the definition agree under permutation and duplication; generate_proof/validate_merkle_proof are complete for members and non-members sharing k-bit prefixes with members; soundness is attacked with structural rewrites of honest proofs (the model decides which keep the root) and with exhaustive enumeration of all proof trees over small alphabets/depths validated against every honest subset root: validate_merkle_proof must return Err or the true membership. Exhaustive on the enumerated spaces, sampled elsewhere.",
          "Soundness over all byte strings can be refuted, not proved; the bounds explored are in the evidence.",
          "DESIGN.md section 4, C12"),
+ "C13": ("proptest over a registry of 226 Streamable types; round-trip, canonicity under single-byte perturbation, hash relation, trusted/untrusted agreement",
+         "For well-formed generated values of every Streamable type in chia-protocol, chia-bls, chia-consensus, chia-datalayer and the primitive/combinator instantiations (version-packed ProofOfSpace/FullBlock/UnfinishedBlock fixed up through 24 container types): from_bytes(to_bytes(v)) = v (also unchecked); every single-byte perturbation, truncation and extension of the encoding that still decodes must re-encode to exactly those bytes; hash = sha256(encoding), with the quality-string commitment rule for version-2 proofs of space checked on the 7 recorded vectors inside every container; untrusted acceptance implies trusted acceptance with the same value. A registry-drift detector reports uncovered types in the evidence.",
+         "Canonicity over all byte strings can be refuted, not proved; values embedding a v2 proof without a quality string have no defined hash and are skipped (counted).",
+         "DESIGN.md section 4, C13"),
+ "C14": ("proptest with adversarial byte generators, counting global allocator and in-flight recorder; totality and resource invariants",
+         "For every registry type, trusted and untrusted: random bytes, mutated valid encodings, valid +- one byte, every length-prefix window set to 2^32-1/2^31/2^24/remaining+1, nested length prefixes, deep/huge Program fields, swept version/prefix bytes. Decoding returns Ok or Err without panic; peak extra allocation stays below 32 MiB + 64*len (counting allocator); trailing/missing bytes are rejected; on Ok, to_bytes/hash/==/clone complete. A process death is attributed by the driver to the in-flight case and is a violation of this property.",
+         "'Never loops' has no timing assertion: the engine watchdog (exit 2) is the only safety net. The ProofOfSpace hash panic (F3) is a listed known finding.",
+         "DESIGN.md section 4, C14"),
  "C15": ("proptest (model-based cache histories) + exhaustive enumeration of thread interleavings through feature-gated yield points; secret-key model of the verdict",
          "verify, aggregate_verify, aggregate_verify_gt (over harness-computed pairings) and BlsCache::aggregate_verify (cold/warm) are compared with a model that knows every secret key (valid iff no key is infinity and the signature equals the aggregate the harness computed) on pair lists with repeated keys/messages, empty messages, the infinity key, tampered/identity/off-subgroup signatures; sequential histories of Verify/Update/Evict on caches of capacity 1..6 check len <= capacity and history-independence; concurrent verifications are executed under a controller that owns the schedule (yield point before every BlsCache lock acquisition, feature chia-bls/verif-hooks): all interleavings of 2 threads x <=2 pairs are enumerated exhaustively, larger configurations sampled.",
          "Interleavings are explored at lock granularity (what the statement names); races inside the Mutex or in blst are out of reach. The hook is compiled only with the feature, which no /repo workspace member enables.",
